@@ -31,5 +31,12 @@ CHECK = {
             "shards": {"quick": 6, "thorough": 9},
             "budget_s": {"quick": 80, "thorough": 300},
         },
+        {
+            # free-running pass for the race detector: no shims, no bubble
+            "name": "c05-race", "pkg": CC, "harness": H, "race": True, "tiers": ["thorough"],
+            "test": "^TestVerifC05Race$",
+            "shards": {"quick": 8, "thorough": 16},
+            "budget_s": {"quick": 120, "thorough": 900},
+        },
     ],
 }
